@@ -71,6 +71,12 @@ def _scope(ctx, cg: CallGraph) -> dict:
     out = {}
     names = set(cg.registered_parser_functions) | {"parserfns.call_parser_function"}
     names |= {d for d in cg.closure(["core.Wtp.expand"]) if d.split(".")[0] in ("core", "parserfns", "luaexec", "common", "interwiki")}
+    base_names = set(names)
+    if ctx.thorough:
+        # whole-package sweep: every function of every module except the network-only ones;
+        # sites outside the expansion closure are reported as informational (outside the property's scope)
+        names |= {d for d, m, f in ctx.index.all_functions() if d.split(".")[0] not in ("wikidata",)}
+    ctx._c05_in_scope = lambda d: any(d == b or d.startswith(b + ".") or b.startswith(d + ".") for b in base_names)
     tops = set()
     for d in names:
         if d in NETWORK_ONLY or d.startswith("wikidata.") or not ctx.index.has_func(d):
@@ -227,6 +233,9 @@ def rule_r2(ctx, cg, scope) -> RuleResult:
                 rr.bad(Finding("C05.R2", _relfile(ctx, dotted), dotted, label,
                                "guarded only by {}.isdigit(): isdigit() accepts characters such as '²' or '①' for which {}() raises "
                                "ValueError; use isdecimal() or a handler".format(et, node.func.id), node.lineno))
+                return
+            if not ctx._c05_in_scope(dotted):
+                rr.informational.append({"outside_expansion_closure": dotted, "site": label, "line": node.lineno})
                 return
             rr.bad(Finding("C05.R2", _relfile(ctx, dotted), dotted, label,
                            "conversion of text without a guard that implies success and outside any ValueError handler", node.lineno))
